@@ -139,6 +139,9 @@ func (c *TO0Client) ownerSign(ctx context.Context, transport Transport, guid pro
 	if len(ov.Entries) == 0 {
 		return 0, fmt.Errorf("ownership voucher has zero extensions")
 	}
+	if ov.Entries[0].Payload == nil {
+		return 0, fmt.Errorf("ownership voucher entry payload 0 is missing")
+	}
 	to0d := to0d{
 		Voucher:      *ov,
 		WaitSeconds:  ttl,
